@@ -205,7 +205,7 @@ def verify_chunk_loops(run, tier, wf=True, prefix='C03/parse_v3', only=None):
         state['reader'] = reader
         if wf:
             wf_v3(ctx, f, cs, cn, ob, Kc, state)
-        p, tp, pn = c02.make_parser(sess, ctx)
+        p, tp, pn = c02.make_parser(sess, ctx, prefix)
         state['parser'] = p
         g = it.call(sess.func(fq), [p, reader], {})
         if not isinstance(g, GenVal):
